@@ -48,7 +48,7 @@ def _class_of(x):
 
 def _valid_map(inputs):
     specs = list(dict.fromkeys(x[0] for x in inputs))
-    ans = core.driver().ask_many([("valid " + s, None) for s in specs])
+    ans = core.driver().ask_many([("valid " + core.lean_spec(s), None) for s in specs])
     return {s: (a == ["1"]) for s, a in zip(specs, ans)}
 
 
@@ -127,6 +127,16 @@ def check_stream(prop, tier, seed, inputs=None):
             w = _c09_repeat(x, r)
             if w:
                 res.viol(x, w)
+            # "each further calculation being an exact, executable repeat of the first":
+            # an executability violation after the first EndReverse belongs to C09 as well
+            acts = [ln.split(" | ")[0] for ln in r if ln.startswith(("A ", "B "))]
+            if "A ER" in acts:
+                first_er = acts.index("A ER")
+                for (idx, tag, code) in mon[x]:
+                    if idx > first_er and tag in ("C01", "C02", "C03", "C04", "C12") and not (tag == "C02" and code == 10):
+                        res.viol(x, f"a further adjoint calculation is not an executable repeat: {tag}.{code} at action {idx}",
+                                 _excerpt(r, idx))
+                        break
         if prop == "C18" and any(ln.startswith("B badaction") for ln in r):
             res.viol(x, "emitted object is not a well-formed action")
         h = hash(tuple(map(str, pr))) if prop != "C11" else hash(x[0])
@@ -181,6 +191,7 @@ def _kernel_compare(res, reqs):
     py = core.pool().map(_pyk, [t for _, t in reqs])
     le = core.driver().ask_many([("kernel " + q, None) for q, _ in reqs])
     n = 0
+    res.kernel_mismatches = getattr(res, "kernel_mismatches", [])
     for (q, t), a, b in zip(reqs, py, le):
         if a and a[0].startswith("H "):
             res.harness_errors.append((q, a[0]))
@@ -190,6 +201,9 @@ def _kernel_compare(res, reqs):
             k = next((i for i, (u, v) in enumerate(itertools.zip_longest(a, b)) if u != v), 0)
             res.disagree(("kernel", q), f"first difference at line {k}: impl={a[k] if k < len(a) else None!r} "
                                          f"model={b[k] if k < len(b) else None!r}")
+            for u, v in itertools.zip_longest(a, b):
+                if u != v and len(res.kernel_mismatches) < 5000:
+                    res.kernel_mismatches.append((q, u, v))
     return n
 
 
@@ -267,6 +281,27 @@ def check_C05(tier, seed):
         for n in range(0, _sz(64, 160, 320, tier) + 1):
             reqs += [(f"nadv {n} {s} {traj}", ("nadv", n, s, traj)) for s in range(0, n + 2)]
     res.stats["kernel_values_compared"] = _kernel_compare(res, reqs)
+    extra = []
+    for q, u, v in getattr(res, "kernel_mismatches", []):
+        w = q.split()
+        if w[0] == "nadv" and int(w[1]) >= 2 and int(w[2]) >= 1:
+            # a step size that differs from the model: run real schedules that reach this sub-problem
+            for nn in (int(w[1]), int(w[1]) + 1, 2 * int(w[1])):
+                extra.append((f"MS {nn} 0 {int(w[2])} {w[3]}", nn, 1))
+                extra.append((f"MS {nn} 0 {int(w[2]) + 1} {w[3]}", nn, 1))
+    extra = sorted(set(extra), key=lambda x: x[1])[:40]
+    if extra:
+        EE = lean_extra(max(x[1] for x in extra))
+        rr = core.real_traces(extra)
+        for x in extra:
+            r = rr[x]
+            if not core.is_complete(r):
+                continue
+            w = x[0].split()
+            want = x[1] + _E(EE, x[1], int(w[2]) + int(w[3]))
+            got = fwd_steps(r, x[1])
+            if got != want:
+                res.viol(x, f"{got} forward steps, Griewank-Walther optimum for n={x[1]}, s={int(w[2]) + int(w[3])} is {want}")
     res.evaluations = len(xs) + len(reqs)
     res.nontrivial = seen
     res.stats["classes"] = _dist(xs)
@@ -317,6 +352,29 @@ def check_C06(tier, seed):
     reqs = [(f"memotab {kn} {kn + 1}", ("memotab", kn, kn + 1)),
             (f"optmixedtab {kn} {kn + 1}", ("optmixedtab", kn, kn + 1))]
     res.stats["kernel_values_compared"] = _kernel_compare(res, reqs)
+    # a planner cell that differs from the model: run the real schedule of that size and compare its
+    # step count with the optimum (this is what turns a kernel disagreement into a failing input)
+    extra = []
+    for q, u, v in getattr(res, "kernel_mismatches", []):
+        if q.startswith("memotab") and u and v and len(u.split()) >= 2 and u.split()[-1] != v.split()[-1]:
+            # the planner's COST differs from the model's (a different split of equal cost is not a failure)
+            nn, ss = int(u.split()[0]), int(u.split()[1])
+            if nn >= 1 and min(1, nn - 1) <= ss:
+                extra.append((f"MX {nn} {ss} D 0", nn, 1))
+    extra = sorted(set(extra), key=lambda x: x[1])[:24]
+    if extra:
+        big = max(x[1] for x in extra)
+        TT = _table(core.kernel(f"optmixedtab {big} {big + 2}"))
+        rr = core.real_traces(extra)
+        for x in extra:
+            r = rr[x]
+            if not core.is_complete(r):
+                continue
+            w = x[0].split()
+            want = TT[(int(w[1]), int(w[2]))]
+            got = fwd_steps(r, x[1])
+            if want != ["raise"] and got != int(want[0]):
+                res.viol(x, f"{got} forward steps, mixed optimum for n={w[1]}, s={w[2]} is {want[0]}")
     # the published helper agrees with the planner's cost (Lean side: two tables of the model)
     M = _table(core.kernel(f"memotab {kn} {kn + 1}"))
     O = _table(core.kernel(f"optmixedtab {kn} {kn + 1}"))
@@ -334,6 +392,9 @@ def check_C06(tier, seed):
 # ------------------------------------------------------------------ C07
 
 def _costs_of(w):
+    """cost vector scaled by core.COST_SCALE when it is not integral (see core.lean_spec)"""
+    if any("." in t for t in w[-4:]):
+        return tuple(int(float(v) * core.COST_SCALE) for v in w[-4:])
     return tuple(int(v) for v in w[-4:])
 
 
@@ -446,6 +507,8 @@ def check_C07(tier, seed):
     kreq = []
     L = _sz(20, 40, 64, tier)
     for c in gen.COSTS:
+        if "." in c:
+            continue
         uf, ub, wd, rd = (int(v) for v in c.split())
         kreq.append((f"opt0 {L} 4 {uf} {ub}", ("opt0", L, 4, uf, ub)))
         for cm in (1, 2, 3):
@@ -1012,14 +1075,15 @@ def check_C17(tier, seed):
 
 def _rand_action(rng):
     k = rng.choice("FFRRCMEE")
-    big = rng.choice([0, 0, 0, 2**63 - 1])
+    big = rng.choice([0, 0, 0, 2**63 - 1, 2**63 - 1, 2**63, 2 * (2**63 - 1), 2**63 + 2])
     st = lambda: rng.choice("RDWN")  # noqa: E731
     if k == "F":
-        n0 = rng.randint(0, 30)
+        n0 = rng.choice([rng.randint(0, 30), rng.randint(0, 30), 2**63 - 1 if big else 0])
         return f"F {n0} {big + n0 if big else n0 + rng.randint(1, 9)} {rng.randint(0, 1)} {rng.randint(0, 1)} {st()}"
     if k == "R":
         n0 = rng.randint(0, 30)
-        return f"R {n0 + rng.randint(1, 9)} {n0} {rng.randint(0, 1)}"
+        n1 = big + 3 if big and rng.random() < 0.5 else n0 + rng.randint(1, 9)
+        return f"R {n1} {n0} {rng.randint(0, 1)}"
     if k in "CM":
         return f"{k} {rng.randint(0, 30)} {st()} {st()}"
     return rng.choice(["EF", "ER"])
@@ -1109,11 +1173,13 @@ def check_C19(tier, seed):
     res = Result("C19")
     xs = [x for x in gen.streams(tier, seed, groups=("revolve3",)) if _class_of(x) == "PD"]
     # all n <= 5m+3 for a few (cm, costs)
-    cfgs = [(1, "1 1 2 2"), (2, "1 1 2 2"), (1, "1 1 5 0"), (2, "2 3 40 1"), (3, "1 1 20 20"), (1, "3 1 2 2"), (2, "1 3 0 0")]
+    cfgs = [(1, "1 1 2 2"), (2, "1 1 2 2"), (1, "1 1 5 0"), (2, "2 3 40 1"), (3, "1 1 20 20"), (1, "3 1 2 2"), (2, "1 3 0 0"),
+            (1, "1 1 3.5 2"), (1, "1 1 0.5 0.25"), (2, "2 2 7 4.5"), (1, "5 1 2 2")]
     if tier != "quick":
         rng = random.Random(seed + 19)
         cfgs += [(rng.randint(1, 4), gen.rnd_costs(rng)) for _ in range(20)]
-    ms = core.driver().ask_many([(f"kernel mxrr {cm} {c.split()[0]} {int(c.split()[2]) + int(c.split()[3])}", None) for cm, c in cfgs])
+    ms = core.driver().ask_many([(f"kernel mxrr {cm} {_costs_of(c.split())[0]} {_costs_of(c.split())[2] + _costs_of(c.split())[3]}", None)
+                                 for cm, c in cfgs])
     for (cm, c), m in zip(cfgs, ms):
         m = int(m[0])
         for n in range(1, min(5 * m + 4, 90 if tier == "quick" else 200)):
